@@ -645,3 +645,94 @@ Proof.
   intros c mgr off ops e Hc Ho He. eapply wf_log; [|exact He]. apply wf_run; auto. apply wf_init.
 Qed.
 
+(* ------------------------------------------------------------------ *)
+(** * What the law says in closed form *)
+
+(** the jittered delay lies within the configured jitter J = jnum/jden of d:
+    d(1-J) - 1 < add_jitter d <= d(1+J)   (the -1 is the truncation) *)
+Lemma add_jitter_band : forall c t d,
+  0 <= d -> 0 < c_jit_den c -> 0 <= c_jit_num c <= c_jit_den c ->
+  let r := add_jitter c t d in
+  d * (c_jit_den c - c_jit_num c) - c_jit_den c < r * c_jit_den c <= d * (c_jit_den c + c_jit_num c).
+Proof.
+  intros c t d Hd Hden Hle. cbv zeta. unfold add_jitter, jitter_modulus, jitter_factor.
+  destruct (c_jit_num c <=? 0) eqn:E.
+  - apply Z.leb_le in E. nia.
+  - apply Z.leb_gt in E.
+    set (x := t mod 1000). assert (Hx : 0 <= x < 1000) by (apply Z.mod_pos_bound; lia).
+    set (A := d * c_jit_num c). set (B := d * c_jit_den c).
+    assert (HA : 0 <= A) by (unfold A; nia). assert (HB : A <= B) by (unfold A, B; nia).
+    set (Nn := B * 1000 + A * (2 * x - 1000)).
+    assert (HN : Nn = B * 1000 + A * (2 * x - 1000)) by reflexivity.
+    assert (H1 : -1000 * A <= A * (2 * x - 1000)) by nia.
+    assert (H2 : A * (2 * x - 1000) <= 998 * A) by nia.
+    assert (HNn : 0 <= Nn) by lia.
+    set (D := c_jit_den c * 1000). assert (HD : 0 < D) by (unfold D; lia).
+    rewrite Z.quot_div_nonneg by lia.
+    pose proof (Z.mul_div_le Nn D HD) as L1. pose proof (Z.mul_succ_div_gt Nn D HD) as L2.
+    assert (Hq : 0 <= Nn / D) by (apply Z.div_pos; lia).
+    destruct (Nn / D <? 0) eqn:En; [apply Z.ltb_lt in En; lia|].
+    set (q := Nn / D) in *.
+    assert (E1 : D * q = 1000 * (q * c_jit_den c)) by (unfold D; ring).
+    assert (E2 : D * Z.succ q = 1000 * (q * c_jit_den c) + 1000 * c_jit_den c) by (unfold D; ring).
+    rewrite E1 in L1. rewrite E2 in L2.
+    assert (EA : d * (c_jit_den c - c_jit_num c) = B - A) by (unfold A, B; ring).
+    assert (EB : d * (c_jit_den c + c_jit_num c) = B + A) by (unfold A, B; ring).
+    rewrite EA, EB. clearbody q A B Nn D x. lia.
+Qed.
+
+(** with an integral multiplier (the default 2.0) the un-jittered delay is
+    exactly min(initial * multiplier^k, max) *)
+Lemma nd_iter_integral : forall c k,
+  c_mul_den c = 1 -> 1 <= c_mul_num c -> 0 <= c_initial c <= c_max c ->
+  nd_iter c k = Z.min (c_initial c * c_mul_num c ^ Z.of_nat k) (c_max c).
+Proof.
+  intros c k Hden Hnum Hi. induction k as [|k IH].
+  - cbn. lia.
+  - cbn [nd_iter]. rewrite IH. unfold next_delay. rewrite Hden, Z.quot_1_r.
+    rewrite Nat2Z.inj_succ, Z.pow_succ_r by lia.
+    set (P := c_mul_num c ^ Z.of_nat k) in *.
+    assert (HP : 1 <= P).
+    { unfold P. pose proof (Z.pow_le_mono_l 1 (c_mul_num c) (Z.of_nat k) ltac:(lia)) as HP0.
+      rewrite Z.pow_1_l in HP0 by lia. exact HP0. }
+    destruct (c_max c <? Z.min (c_initial c * P) (c_max c) * c_mul_num c) eqn:E.
+    + apply Z.ltb_lt in E. nia.
+    + apply Z.ltb_ge in E. nia.
+Qed.
+
+(** general dyadic multiplier: the delay never exceeds the formula *)
+Lemma nd_iter_upper : forall c k, cfg_ok c ->
+  nd_iter c k <= Z.max (c_initial c) (c_max c) /\
+  nd_iter c k * c_mul_den c ^ Z.of_nat k <= c_initial c * c_mul_num c ^ Z.of_nat k.
+Proof.
+  intros c k Hc. pose proof Hc as (H1&H2&H3&H4). induction k as [|k [IH1 IH2]].
+  - cbn. lia.
+  - pose proof (nd_iter_nonneg c k Hc) as Hn. cbn [nd_iter]. unfold next_delay.
+    rewrite Nat2Z.inj_succ, !Z.pow_succ_r by lia.
+    set (d := nd_iter c k) in *. set (P := c_mul_num c ^ Z.of_nat k) in *. set (Q := c_mul_den c ^ Z.of_nat k) in *.
+    assert (HQ : 0 < Q) by (unfold Q; apply Z.pow_pos_nonneg; lia).
+    assert (HPn : 0 <= P) by (unfold P; apply Z.pow_nonneg; lia).
+    pose proof (Z.mul_quot_le (d * c_mul_num c) (c_mul_den c) ltac:(nia) ltac:(lia)) as Hq.
+    assert (Hq0 : 0 <= Z.quot (d * c_mul_num c) (c_mul_den c)) by (apply Z.quot_pos; nia).
+    set (r := Z.quot (d * c_mul_num c) (c_mul_den c)) in *.
+    assert (S2 : (c_mul_den c * r) * Q <= (d * c_mul_num c) * Q) by (apply Z.mul_le_mono_nonneg_r; lia).
+    assert (S3 : (d * Q) * c_mul_num c <= (c_initial c * P) * c_mul_num c) by (apply Z.mul_le_mono_nonneg_r; lia).
+    assert (S4 : r * (c_mul_den c * Q) <= c_initial c * (c_mul_num c * P)).
+    { replace (r * (c_mul_den c * Q)) with ((c_mul_den c * r) * Q) by ring.
+      replace (c_initial c * (c_mul_num c * P)) with ((c_initial c * P) * c_mul_num c) by ring.
+      replace ((d * c_mul_num c) * Q) with ((d * Q) * c_mul_num c) in S2 by ring. lia. }
+    destruct (c_max c <? r) eqn:E.
+    + apply Z.ltb_lt in E. split; [lia|].
+      assert (S1 : c_max c * (c_mul_den c * Q) <= r * (c_mul_den c * Q)) by (apply Z.mul_le_mono_nonneg_r; nia).
+      lia.
+    + apply Z.ltb_ge in E. split; [lia|]. exact S4.
+Qed.
+
+(** non-vacuity: a history on which three consecutive retries happen at 1 s,
+    3 s and 7 s (1 s, 2 s, 4 s after their timers were armed) *)
+Example backoff_law_example :
+  map (fun e => (l_time e, l_k e, l_armed e))
+      (rev (log (run fixed std true (init 0)
+                   [Sched 0%N; Adv sec; Reply 0 false; Adv (2 * sec); Reply 0 false; Adv (4 * sec)])))
+  = [(1 * sec, 0, 0); (3 * sec, 1, 1 * sec); (7 * sec, 2, 3 * sec)].
+Proof. vm_compute. reflexivity. Qed.
